@@ -214,6 +214,10 @@ theorem stm_cases (p : Pred) (s : Stm) (hok : stmOk s = true) (h : EvFree p (stm
     right
     simp only [stmEvents] at h
     simpa [stmAvoids] using bodyAvoids_of_events p b h
+  | showTerm t b =>
+    right
+    simp only [stmEvents] at h
+    simpa [stmAvoids] using bodyAvoids_of_events p b h
   | _ => right; simp [stmAvoids]
 
 /-- **decision ⇒ side condition.**  If the model of `remove_unused` finds the rule `n(args) :- B.` removable, then the
